@@ -6,7 +6,7 @@ cd "$(dirname "$0")"
 export CARGO_NET_OFFLINE=true
 python3 tools/translate.py /repo >/dev/null
 cd coq
-coq_makefile -f _CoqProject -o Makefile.coq
+python3 ../tools/mkproject.py
 timeout 3000 make -f Makefile.coq -j16
 cd ../harness
 [ -f Cargo.lock ] || cp /repo/Cargo.lock Cargo.lock
